@@ -7,7 +7,7 @@ import EpModel.Model.Builder
 
    build.write <cfg> <payload>
        → ok(size=<size()>,len=<bytes written>,b=<hex>)                              (len ≤ 2000)
-         ok(size=…,len=…,head=<first 128 bytes>,tail=<last 16 bytes>,ck=<digest>)   (len > 2000)
+         ok(size=…,len=…,head=<first 128 bytes>,tail=<last 16 bytes>,ck=<Adler-32>) (len > 2000)
          err(<BuildWriteError variant>,size=<size()>,written=<hex handed to the writer before the error>)
          err(ctor(...)) when a checked constructor / `.options()` rejects a configured value
    build.slice <cfg> <payload> <cap>
@@ -266,7 +266,12 @@ def parseCfg (s : String) : Option (Except String Cfg) :=
 
 /-! ### rendering -/
 
-def digest (b : Bytes) : Nat := b.foldl (fun acc x => (acc * 31 + x.toNat) % 4294967291) 7
+/-- Adler-32 (RFC 1950) of the bytes -/
+def digest (b : Bytes) : Nat :=
+  let r := b.foldl (fun (acc : Nat × Nat) x =>
+    let a := (acc.1 + x.toNat) % 65521
+    (a, (acc.2 + a) % 65521)) (1, 0)
+  r.2 * 65536 + r.1
 
 def showBytes (b : Bytes) : String :=
   if b.length > 2000 then
